@@ -381,12 +381,11 @@ namespace
             }
             else
             {
-                for (std::size_t i = 0; i < coll.size(); ++i)
-                {
-                    auto c = coll[i];
-                    auto d = c.data_view().delta_value(dt(t));
-                    if (d.has_value()) { dl.push_back((I64)i); dl.push_back(as_i(d)); }
-                }
+                // the list's own delta surface: a map  index -> child delta  of the children modified at the parent's time
+                std::vector<std::array<I64, 2>> kv;
+                for (const auto [k, x] : delta.as_map().items()) { kv.push_back({as_i(k), x.has_value() ? as_i(x) : -1}); }
+                std::sort(kv.begin(), kv.end());
+                for (auto &x : kv) { dl.insert(dl.end(), x.begin(), x.end()); }
             }
         }
         out.line(dl);
